@@ -458,6 +458,9 @@ func (g *vgen) scenarioCases(t *testing.T) {
 		}
 	}
 	for i, s := range scs {
+		if g.stuck >= 3 {
+			break // the implementation deviates (already reported as `stuck`); do not wait out the watchdog hundreds of times
+		}
 		c := &vCase{t: t, g: g, id: fmt.Sprintf("sc%d", i), chain: s.chain, dev: s.dev, wait: s.wait, gapF: s.gapF, gapS: s.gapF / 2}
 		g.r.Read(c.contract[:])
 		c.lat = 90 + s.gapF
